@@ -23,7 +23,7 @@ RULE = ("history = event sequence over {key-addressed operation (get, set, delet
         "grouped per public call are contacts). Bounded-exhaustive: every sequence up to depth 5 (thorough 7) over an "
         "8-symbol alphabet (2 servers; get on each, set_many; three advances; fail/heal of server 0) x all six "
         "configurations; 'probe trains' - server 0 failing, then every sequence of up to 7 (thorough 9) gaps drawn from {below retry_timeout, above it, above dead_timeout} each followed by an operation, with and without a heal part-way; Hypothesis sequences up to length 40. Observation through public seams only: the contact log "
-        "and a RendezvousHash subclass passed as hasher= that records (rotation at that instant, key, node) for every "
+        "and a hasher passed as hasher= (a RendezvousHash subclass, or a minimal class offering only the documented get_node/add_node/remove_node) that records (rotation at that instant, key, node) for every "
         "routing decision. Oracle: per continuous failing interval of a server, <= 2 contacts in any retry_timeout "
         "window and <= retry_attempts+2 in any dead_timeout window; every routing decision equals the reference "
         "placement over the rotation it saw; a single-key call makes one routing decision and contacts nobody or "
@@ -108,6 +108,38 @@ def make_loghash(routes):
     return LogHash
 
 
+def make_minimal_hash(routes):
+    """the documented `hasher=` contract and nothing more: no `.nodes`, no other attribute the client could lean on"""
+    class MinimalHash:
+        __slots__ = ("_MinimalHash__ring",)
+
+        def __init__(self):
+            self.__ring = []
+
+        def add_node(self, node):
+            if node not in self.__ring:
+                self.__ring.append(node)
+
+        def remove_node(self, node):
+            if node not in self.__ring:
+                raise ValueError("No such node %s to remove" % (node,))
+            self.__ring.remove(node)
+
+        def get_node(self, key):
+            r = refhash.place(list(self.__ring), key) if self.__ring else None
+            routes.append((tuple(self.__ring), key, r))
+            return r
+
+        def rotation_for_the_oracle(self):
+            return list(self.__ring)
+    return MinimalHash
+
+
+def rotation(hc):
+    h = hc.hasher
+    return h.rotation_for_the_oracle() if hasattr(h, "rotation_for_the_oracle") else list(h.nodes)
+
+
 def name(s):
     return "%s:%s" % s
 
@@ -142,13 +174,13 @@ def check(case):
 
             class HC(HashClient):
                 client_class = Scripted
-            hc = HC(servers, hasher=make_loghash(routes), retry_attempts=ra, retry_timeout=RT, dead_timeout=DT, ignore_exc=ie)
+            hc = HC(servers, hasher=(make_minimal_hash if case.get("hasher") == "minimal" else make_loghash)(routes), retry_attempts=ra, retry_timeout=RT, dead_timeout=DT, ignore_exc=ie)
         else:
             env = Env(addrs=servers)
             env.clock = clock
             for s in env.servers:
                 s.clock = clock
-            hc = HashClient(servers, hasher=make_loghash(routes), retry_attempts=ra, retry_timeout=RT, dead_timeout=DT, ignore_exc=ie,
+            hc = HashClient(servers, hasher=(make_minimal_hash if case.get("hasher") == "minimal" else make_loghash)(routes), retry_attempts=ra, retry_timeout=RT, dead_timeout=DT, ignore_exc=ie,
                             socket_module=env.net, default_noreply=False)
         return _run(case, hc, servers, names, owner, key_of, routes, world, env, clock)
     finally:
@@ -290,14 +322,14 @@ def _run(case, hc, servers, names, owner, key_of, routes, world, env, clock):
                     if osrv not in ever_failed and osrv not in cs:
                         V("clean-owner-bypassed", "%s returned normally without contacting %r, which never failed and owns %r" % (opn, o, k))
         # eviction rules (rotation observed after the call, only for facts that cannot be in flux)
-        rotation = list(hc.hasher.nodes)
+        rot_now = rotation(hc)
         for (t, s, failed) in new:
-            if failed and ra >= 1 and s in first_since_clean and name(s) not in rotation:
+            if failed and ra >= 1 and s in first_since_clean and name(s) not in rot_now:
                 V("evicted-on-first-failure", "%r was taken out of rotation by a single failure (its first since its last successful contact) although retry_attempts=%d" % (name(s), ra))
         for s in servers:
-            if s not in ever_failed and name(s) not in rotation:
-                V("never-failed-out-of-rotation", "%r never failed but is out of rotation %r" % (name(s), rotation))
-            if name(s) not in rotation:
+            if s not in ever_failed and name(s) not in rot_now:
+                V("never-failed-out-of-rotation", "%r never failed but is out of rotation %r" % (name(s), rot_now))
+            if name(s) not in rot_now:
                 died.add(s)
             elif s in died:
                 revived = True
@@ -324,8 +356,8 @@ def _run(case, hc, servers, names, owner, key_of, routes, world, env, clock):
         if exc is not None and (ie or not (isinstance(exc, MemcacheError) and "All servers" in str(exc))):
             V("exception-during-recovery", "with every server healthy, get raised %r" % (exc,))
     new, mark = _contacts_since(world, env, servers, mark)
-    if sorted(hc.hasher.nodes) != sorted(names):
-        V("not-recovered", "two dead_timeouts of traffic after every server healed the rotation is %r, not %r" % (list(hc.hasher.nodes), names))
+    if sorted(rotation(hc)) != sorted(names):
+        V("not-recovered", "two dead_timeouts of traffic after every server healed the rotation is %r, not %r" % (rotation(hc), names))
     for k, o in sorted(owner.items()):
         exc = do("get", k)
         new, mark = _contacts_since(world, env, servers, mark)
@@ -386,7 +418,7 @@ def probe_train_cases(tier, seed):
                         for g in gaps:
                             ev += [["adv", GAPS[g]], ["op", opn, 0]]
                         yield {"servers": 2 if (n + ra) % 4 else 1, "retry_attempts": ra, "ignore_exc": ie, "backend": "scripted", "recovery_step": 7, "events": ev,
-                               "recovery_op": ("get", "set_many", "get_many")[(sum(gaps) + n) % 3]}
+                               "recovery_op": ("get", "set_many", "get_many")[(sum(gaps) + n) % 3], "hasher": "minimal" if (sum(gaps) + ra) % 2 else "subclass"}
                         if n <= 5:
                             # the same train with the server healing in the middle and failing again at the end
                             h = n // 2
@@ -407,7 +439,7 @@ def history_strategy(tier):
         st.tuples(st.just("adv"), st.sampled_from([0.5, 1.0, 1.5, 30, 60, 61, 121])).map(list),
         st.tuples(st.just("fail"), st.integers(0, 2), st.sampled_from(sorted(ERR))).map(list),
         st.tuples(st.just("heal"), st.integers(0, 2)).map(list))
-    return st.fixed_dictionaries({"servers": st.sampled_from([1, 2, 2, 3]), "recovery_op": st.sampled_from(["get", "set_many", "get_many", "delete"]), "retry_attempts": st.sampled_from([0, 1, 2]), "ignore_exc": st.booleans(),
+    return st.fixed_dictionaries({"servers": st.sampled_from([1, 2, 2, 3]), "recovery_op": st.sampled_from(["get", "set_many", "get_many", "delete"]), "hasher": st.sampled_from(["subclass", "minimal"]), "retry_attempts": st.sampled_from([0, 1, 2]), "ignore_exc": st.booleans(),
                                   "backend": st.sampled_from(["scripted", "scripted", "real"]), "events": st.lists(ev, min_size=1, max_size=40)})
 
 
